@@ -200,7 +200,21 @@ impl Prop for C19 {
         // random sheets over nested documents
         let n = scale(tier, 2000, 40000);
         for _ in 0..n {
-            let mut html = gen_doc(r, knobs()).0;
+            // one document in five has tables, rendered in raw mode (cells one after the other, so the text keeps document
+            // order): colours on table, row and cell elements nest through the cells' sub-renderers (added after the seeded
+            // change C19-cell-style-unwound-after-pop was reported by C09 only)
+            let with_tables = r.p(20);
+            let mut html = if with_tables {
+                let mut k = Knobs::all().unique();
+                k.classes_only = true;
+                k.href_digits = true;
+                k.digits = false;
+                k.pre = false;
+                k.weird_colspan = false;
+                gen_doc(r, k).0
+            } else {
+                gen_doc(r, knobs()).0
+            };
             // sprinkle inline colour declarations
             let dom = domwalk::tree(html.as_bytes());
             let fl = flat_of(&dom);
@@ -248,6 +262,7 @@ impl Prop for C19 {
             }
             let mut cfg = Cfg::rich();
             cfg.use_doc_css = true;
+            cfg.raw = with_tables;
             let mut sheets = [String::new(), String::new(), String::new()];
             let mut aux = Vec::new();
             let mut ri = 0;
